@@ -299,7 +299,7 @@ fn build_sig(ret: Option<ScalarType>, ps: &[PT], names: &[&str]) -> ExternSignat
         .collect();
     ExternSignature::new(ret, params)
 }
-const DECL: &str = "DECLARE k INTEGER\nDECLARE x REAL\nDECLARE v INTEGER[2]\nDECLARE w INTEGER[3]\nDECLARE bb BIT[2]\n";
+const DECL: &str = "DECLARE k INTEGER\nDECLARE x REAL\nDECLARE v INTEGER[2]\nDECLARE w INTEGER[3]\nDECLARE bb BIT[2]\nDECLARE oo OCTET[2]\n";
 fn region(name: &str) -> Option<(ScalarType, u64)> {
     match name {
         "k" => Some((ScalarType::Integer, 1)),
@@ -307,6 +307,7 @@ fn region(name: &str) -> Option<(ScalarType, u64)> {
         "v" => Some((ScalarType::Integer, 2)),
         "w" => Some((ScalarType::Integer, 3)),
         "bb" => Some((ScalarType::Bit, 2)),
+        "oo" => Some((ScalarType::Octet, 2)),
         _ => None,
     }
 }
@@ -325,6 +326,8 @@ const ARGS: &[Arg] = &[
     Arg::Ref("v", 1),
     Arg::Id("w"),
     Arg::Id("bb"),
+    Arg::Id("oo"),
+    Arg::Ref("oo", 1),
     Arg::Id("u"),
     Arg::Ref("u", 0),
     Arg::Imm(1.0, 0.0),
@@ -561,7 +564,7 @@ pub static C27: PropDef = PropDef {
     id: "C27",
     level: "exploration",
     engine: "sweep",
-    rule: "every executable instruction form over regions {a,b,c}: each classical operator x destination x source (reference / literal), comparisons, LOAD/STORE, EXCHANGE/CONVERT, jumps, MEASURE, CAPTURE/RAW-CAPTURE/PULSE/gates/DELAY/SET-*/SHIFT-* with expressions containing 0-2 references; plus every CALL of arity <= 2 against generated extern signatures (types x mut x scalar/vector) x 13 argument forms built through Call::try_new. non-trivial = instruction that accesses memory / call that resolves",
+    rule: "every executable instruction form over regions {a,b,c}: each classical operator x destination x source (reference / literal), comparisons, LOAD/STORE, EXCHANGE/CONVERT, jumps, MEASURE, CAPTURE/RAW-CAPTURE/PULSE/gates/DELAY/SET-*/SHIFT-* with expressions containing 0-2 references; plus every CALL of arity <= 2 against generated extern signatures (types x mut x scalar/vector) x 15 argument forms built through Call::try_new. non-trivial = instruction that accesses memory / call that resolves",
     assumptions: &["reference access table mc/src/refm.rs ref_mem written from the property statement; for CALL whether the return slot is also read is left open (accepted either way)"],
     run: |ctx| {
         let cases = c27_cases(ctx.tier);
@@ -639,7 +642,7 @@ pub static C31: PropDef = PropDef {
     id: "C31",
     level: "exploration",
     engine: "sweep",
-    rule: "every extern signature with optional return in {INTEGER, REAL} (roundtrip: all 4 scalar types) and <= 2 (roundtrip: <= 3) parameters over {scalar, T[], T[2], T[0]} x {mut, -} x 3-4 element types x parameter names {p, q2, Rr, aB-c, _x1}; signature -> text -> signature, PRAGMA EXTERN route, program-text route; every call with arity -1/0/+1 and 13 argument forms over regions k:INTEGER x:REAL v:INTEGER[2] w:INTEGER[3] bb:BIT[2] and an undeclared one, resolved by the real code vs the slot-fitting rules. non-trivial = call that resolves / signature with parameters",
+    rule: "every extern signature with optional return in {INTEGER, REAL} (roundtrip: all 4 scalar types) and <= 2 (roundtrip: <= 3) parameters over {scalar, T[], T[2], T[0]} x {mut, -} x 3-4 element types x parameter names {p, q2, Rr, aB-c, _x1}; signature -> text -> signature, PRAGMA EXTERN route, program-text route; every call with arity -1/0/+1 and 15 argument forms over regions k:INTEGER x:REAL v:INTEGER[2] w:INTEGER[3] bb:BIT[2] oo:OCTET[2] and an undeclared one, resolved by the real code vs the slot-fitting rules. non-trivial = call that resolves / signature with parameters",
     assumptions: &["slot-fitting rules transcribed from the property statement (a bare region name in a scalar slot counts as a reference to its first cell)"],
     run: |ctx| {
         // signature roundtrips
